@@ -878,6 +878,30 @@ func (c *bCombo) checkMarks(s *Solver, comboKey string, addViol func(string, str
 			continue
 		}
 		ftag, old := f.args[0], f.args[1]
+		// Bound of this query: the flushed request registered its tag before the
+		// flush looked it up (the window between recvMu.Unlock and StartTag in
+		// handleRequest is outside the decided bound, see DESIGN.md section 7).
+		var regOrder []*Term
+		for oi, ot := range c.tr {
+			if c.names[oi] != old {
+				continue
+			}
+			firstW := map[string]int{}
+			for k, e := range ot.Events {
+				if e.Kind == "mwr" {
+					if _, ok := firstW[e.Obj]; !ok {
+						firstW[e.Obj] = k
+					}
+				}
+			}
+			for k, e := range c.tr[f.i].Events {
+				if e.Kind == "mrd" && k > f.k {
+					if w, ok := firstW[e.Obj]; ok && c.T[oi][w] != nil && c.T[f.i][k] != nil {
+						regOrder = append(regOrder, c.lt(c.ts(oi, w), c.ts(f.i, k)))
+					}
+				}
+			}
+		}
 		for _, b := range txb {
 			if len(b.args) < 2 || b.args[0] != ftag || b.args[1] != "109" {
 				continue
@@ -887,6 +911,7 @@ func (c *bCombo) checkMarks(s *Solver, comboKey string, addViol func(string, str
 					continue
 				}
 				q := []*Term{c.lt(c.ts(iv.thread, iv.enter), c.ts(b.i, b.k)), c.lt(c.ts(b.i, b.k), c.ts(iv.thread, iv.exit))}
+				q = append(q, regOrder...)
 				switch c.check(s, q...) {
 				case Sat:
 					addViol("rflush-while-flushed-request-in-backend", fmt.Sprintf("Rflush[%s] written while %s of request %s is still running", ftag, iv.op, old), c.witness(s, q...))
@@ -904,6 +929,7 @@ func (c *bCombo) checkMarks(s *Solver, comboKey string, addViol func(string, str
 						continue
 					}
 					q := []*Term{c.lt(c.ts(iv1.thread, iv1.enter), c.ts(b.i, b.k)), c.lt(c.ts(b.i, b.k), c.ts(iv2.thread, iv2.enter))}
+					q = append(q, regOrder...)
 					if c.check(s, q...) == Sat {
 						addViol("backend-call-starts-after-rflush", fmt.Sprintf("%s of request %s starts after Rflush[%s]", iv2.op, old, ftag), c.witness(s, q...))
 					} else {
